@@ -2,6 +2,7 @@ import DimodModel.JsonValue
 import DimodModel.DqmFile
 import DimodModel.CqmLegacy
 import DimodModel.HeaderDicts
+import DimodModel.JsonObject
 
 /-! Line-protocol driver of the file-format models (C09 / C10).  One operation per line:
 
@@ -27,6 +28,8 @@ import DimodModel.HeaderDicts
     deccqmhdr <hdrText> <bytes>                                    -> classes (header exact, archive by contract)
     encdqm  <hdrText> <labelled> <npz> <varsText>                  -> hex
     hdrbqm <ver> <ign> <vartype> <dsz> <isz> <lin> <low> <labels>  -> header dictionary as values; also hdrqm, hdrexpr, hdrdqm
+    hdrtextbqm / hdrtextqm / hdrtextexpr (same arguments as hdr*)  -> hex of the header JSON text the model writes
+    parsehdr <bqm|qm|expr> <textHex>                               -> header fields as the loader reads them | none
     encdqmm <starts|lin|low|off>                                   -> npz members + header counts
     decdqmm <members>                                              -> content | err
     decdqm  <mode> <hdrText> <labelled> <varsText> <nlabels> <npzlen> <nvars> <bytes> -> canonical | classes
@@ -369,6 +372,19 @@ def handle (toks : List String) : String :=
     showHeaderDict (qmHeaderDict dsz.toNat! isz.toNat! c (parseLabels labels))
   | ["hdrexpr", tn, dsz, isz, ex] => showHeaderDict (exprHeaderDict tn dsz.toNat! isz.toNat! (parseExpr ex))
   | ["hdrdqm", ign, labels] => if dqmVariablesFlag (ign = "1") (parseLabels labels) then "T" else "F"
+  | ["hdrtextbqm", ver, ign, vt, dsz, isz, lin, low, labels] =>
+    let c : QContent := { offset := [], linear := parseBytesList lin, lower := parseLower low }
+    charsToHex (dumpsDict (bqmDict (bqmHeaderDict ver.toNat! (ign = "1") vt.toNat! dsz.toNat! isz.toNat! c (parseLabels labels))))
+  | ["hdrtextqm", dsz, isz, lin, low, labels] =>
+    let c : QContent := { offset := [], linear := parseBytesList lin, lower := parseLower low }
+    charsToHex (dumpsDict (qmDict (qmHeaderDict dsz.toNat! isz.toNat! c (parseLabels labels))))
+  | ["hdrtextexpr", tn, dsz, isz, ex] => charsToHex (dumpsDict (exprDict (exprHeaderDict tn dsz.toNat! isz.toNat! (parseExpr ex))))
+  | ["parsehdr", kind, text] =>
+    let r := if kind = "bqm" then parseBqmHeader (unhex text) else if kind = "qm" then parseQmHeader (unhex text) else parseExprHeader (unhex text)
+    match r with
+    | none => "none"
+    | some h => s!"{h.nvars},{h.ninter},{h.dsize},{h.isize},{h.nsize},{h.vartype}," ++
+        (match h.vars with | .flag b => if b then "T" else "F" | .labels l => s!"L{l.length}")
   | ["encdqmm", content] =>
     let c := parseDqm content
     String.intercalate ";" ((dqmMembers c).map showMember) ++ " counts=" ++ showDqmCounts (dqmCounts c)
